@@ -390,6 +390,7 @@ func runC02(c *Check) {
 		}
 	}
 	c.validityGateContent()
+	c.loopProgress("C02-R10", pathFns)
 }
 
 // validityGateContent (R9): the gate every parse passes through treats the three entity
